@@ -20,6 +20,11 @@
  *                               ("-" = NULL, "e" = the empty string, else hex; heap blocks of exact size)
  *   bufs <op>...                from an empty table: o open a new path, s<idx> bufs_switch(idx), h bufs_shift;
  *                               answers the slot returned by bufs_findroom (o) and the table of used slots
+ *   subst <ic> <pat> <ln> <rep> what one round of ec_substitute's loop sees: rstr_make(pat), rstr_find(re, ln, 16, offs, 0) on a
+ *                               heap copy of the line of exactly strlen+1 bytes; answers `nopat`, `nomatch`, or the 32 offsets
+ *                               followed by what replace() appends for <rep> -- replace() is only called when every group is
+ *                               unset (-1,-1) or lies inside the line (else `BADOFFS`: the call would hand memcpy a pointer
+ *                               outside the line or a negative length)
  */
 #include "ex.c"
 #include "term.c"
@@ -272,6 +277,48 @@ static void do_bufs(char **w, int n)
 	bufs_switch(bufs_open(""));
 }
 
+static void do_subst(int ic, char *hpat, char *hln, char *hrep)
+{
+	int n, i, bad = 0;
+	int offs[32];
+	char *rpat = pu_unhex(hpat, &n, 0, 0);
+	char *rln = pu_unhex(hln, &n, 0, 0);
+	char *rrep = pu_unhex(hrep, &n, 0, 0);
+	char *pat = exact(rpat, strlen(rpat));
+	char *ln = exact(rln, strlen(rln));
+	char *rep = exact(rrep, strlen(rrep));
+	struct rstr *re = rstr_make(pat, ic ? RE_ICASE : 0);
+	int len = strlen(ln);
+	if (!re) {
+		printf("nopat\n");
+	} else {
+		for (i = 0; i < LEN(offs); i++)
+			offs[i] = -7;			/* a slot the matcher does not fill stays visible */
+		if (rstr_find(re, ln, LEN(offs) / 2, offs, 0) < 0) {
+			printf("nomatch\n");
+		} else {
+			for (i = 0; i < LEN(offs); i++)
+				printf("%d ", offs[i]);
+			for (i = 0; i < LEN(offs); i += 2)
+				if (!(offs[i] == -1 && offs[i + 1] == -1) &&
+						!(0 <= offs[i] && offs[i] <= offs[i + 1] && offs[i + 1] <= len))
+					bad = 1;
+			if (bad) {
+				printf("BADOFFS\n");
+			} else {
+				struct sbuf *sb = sbuf_make();
+				replace(sb, rep, ln, offs);
+				pu_hex(sbuf_buf(sb), sbuf_len(sb));
+				printf("\n");
+				sbuf_free(sb);
+			}
+		}
+		rstr_free(re);
+	}
+	free(rpat); free(rln); free(rrep);
+	free(pat); free(ln); free(rep);
+}
+
 static char *req_getline(void)
 {
 	ssize_t n = getline(&pu_line, &pu_cap, req);
@@ -318,6 +365,8 @@ int main(void)
 			do_pexp(atoi(w[1]), w[2], w[3], w[4]);
 		else if (n >= 1 && !strcmp(w[0], "bufs"))
 			do_bufs(w + 1, n - 1);
+		else if (n == 5 && !strcmp(w[0], "subst"))
+			do_subst(atoi(w[1]), w[2], w[3], w[4]);
 		else
 			printf("?\n");
 		fflush(stdout);
